@@ -133,7 +133,9 @@ def run_case(case, ctx):
             # positions counted from another origin (used by the trend forecaster); asked first, so that everything below runs on a
             # horizon object that has already answered it
             start = c - 7 - ci
-            ok, ai_ = ctx.call("to_absolute_int:exception", fh.to_absolute_int, start, cc)
+            # the origin as a plain int or as the numpy integer an index hands out (y.index[0] of an integer index)
+            start_arg = [start, np.int64(start), np.int32(start), pd.Index([start], dtype="int64")[0]][(ci // 2 + len(S)) % 4] if abs(start) < 2 ** 31 else start
+            ok, ai_ = ctx.call("to_absolute_int:exception", fh.to_absolute_int, start_arg, cc)
             if ok:
                 want = [(c + s_ if case["rel"] else s_) - start for s_ in S]
                 ctx.check("to_absolute", _ints(ai_) == want, "to_absolute_int:not-absolute-minus-start", "to_absolute_int(start, cutoff) != absolute steps - start", got=_ints(ai_), expected=want)
@@ -256,4 +258,18 @@ def _run_cache(case, ctx, FH):
                       "repeated/cached to_absolute returned another cutoff's result", cutoff=c, got=_ints(r))
             ab = r.to_relative(c)
             ctx.check("roundtrip", _ints(ab) == S, "cache:stale-to_relative", "cached to_relative wrong", cutoff=c, got=_ints(ab))
+    # one ABSOLUTE horizon object asked under changing cutoffs (the same object kept across updates of a forecaster): every answer is for the
+    # cutoff of that call - relative form, indexer, in-sample / out-of-sample parts and predicates
+    ax, bx = FH(list(S), is_relative=False), FH(pd.Index(S, dtype="int64"), is_relative=False)
+    for c in case["cutoffs"] + case["cutoffs"][::-1]:
+        for fh in (ax, bx, ax):
+            rel = [v - c for v in S]
+            ctx.check("roundtrip", _ints(fh.to_relative(c)) == rel, "cache:absolute-horizon:stale-to_relative", "to_relative(cutoff) of a reused absolute horizon answered for another cutoff",
+                      cutoff=c, got=_ints(fh.to_relative(c)), expected=rel)
+            ctx.check("roundtrip", _ints(fh.to_absolute(c)) == S, "cache:absolute-horizon:to_absolute-changed", "to_absolute of an absolute horizon is not itself", cutoff=c)
+            ctx.check("partition", _ints(fh.to_in_sample(c).to_relative(c)) == [v for v in rel if v <= 0] and _ints(fh.to_out_of_sample(c).to_relative(c)) == [v for v in rel if v > 0],
+                      "cache:absolute-horizon:stale-partition", "in-sample / out-of-sample parts of a reused absolute horizon are those of another cutoff", cutoff=c)
+            ctx.check("predicates", bool(fh.is_all_in_sample(c)) == all(v <= 0 for v in rel) and bool(fh.is_all_out_of_sample(c)) == all(v > 0 for v in rel),
+                      "cache:absolute-horizon:stale-predicates", "all-in-sample / all-out-of-sample of a reused absolute horizon are those of another cutoff", cutoff=c)
+            ctx.check("indexer", _ints(fh.to_indexer(c)) == [v - 1 for v in rel], "cache:absolute-horizon:stale-indexer", "indexer of a reused absolute horizon is that of another cutoff", cutoff=c)
     ctx.nontrivial = len(S) > 1
